@@ -22,79 +22,25 @@ spec fn seen_is<P: AsRef<str>, V, W>(n: NfaBuilder<char, W>, items: Seq<(P, V)>,
 // ---- assumed contract of the fail/output passes (nfa_builder.rs build_fails, build_fails_leftmost, build_outputs) ----
 // They mutate states through RefCell from &self, which Verus cannot express; under R9 the stubs take &mut self.
 // The bounded stand-in evaluates exactly these clauses (and the stronger Aho-Corasick ones) on every NFA it builds.
-spec fn passes_frame<V>(a: NfaBuilder<char, V>, b: NfaBuilder<char, V>) -> bool {
-    &&& b.states@.len() == a.states@.len()
-    &&& forall|t: int| 0 <= t < a.states@.len() ==> (#[trigger] b.states@[t]).edges@ == a.states@[t].edges@ && b.states@[t].output == a.states@[t].output
-    &&& b.len == a.len && b.match_kind == a.match_kind && b.skipped == a.skipped
-}
-spec fn fails_ok<V>(n: NfaBuilder<char, V>, lm: bool) -> bool {
-    &&& forall|s: int| 0 <= s < n.states@.len() ==> (#[trigger] n.states@[s]).fail < n.states@.len()
-    &&& nfa_links(n, lm)
-}
-//@include ghost_nfa_outs_cw.rs
-// breadth-first queue handed from the fail pass to the output pass
-spec fn queue_ok<V>(n: NfaBuilder<char, V>, q: Seq<u32>) -> bool {
-    q.len() + 2 == n.states@.len() && q.len() > 0 && forall|i: int| 0 <= i < q.len() ==> 2 <= #[trigger] q[i] < n.states@.len()
-}
-
+//@include_subst ghost_pass.rs u8=char
 impl<V: Copy> NfaBuilder<char, V> {
+    // contracts proved on the real functions by the unit pass_cw (same text: pass_heads.inc)
     #[verifier::external_body]
     fn build_fails(&mut self) -> (q: Vec<u32>)
-        requires trie_ok(*old(self)), reach_ok(*old(self)), old(self).states@.len() > 2,
-        ensures passes_frame(*old(self), *final(self)), fails_ok(*final(self), false), queue_ok(*final(self), q@),
-            final(self).outputs@ == old(self).outputs@,
-            // Aho-Corasick: fail(s) is the state of the longest proper suffix of path(s) that is a trie node
-            ac_fail(*final(self)),
+//@includeblock pass_heads.inc build_fails
     { unimplemented!() }
 
     #[verifier::external_body]
     fn build_fails_leftmost(&mut self) -> (q: Vec<u32>)
-        requires trie_ok(*old(self)), reach_ok(*old(self)), old(self).states@.len() > 2,
-        ensures passes_frame(*old(self), *final(self)), fails_ok(*final(self), true), queue_ok(*final(self), q@),
-            final(self).outputs@ == old(self).outputs@,
+//@includeblock pass_heads.inc build_fails_leftmost
     { unimplemented!() }
 
     #[verifier::external_body]
     fn build_outputs(&mut self, q: &[u32])
-        requires queue_ok(*old(self), q@),
-        ensures passes_frame(*old(self), *final(self)), nfa_outs_ok(*final(self)),
-            forall|s: int| 0 <= s < old(self).states@.len() ==> (#[trigger] final(self).states@[s]).fail == old(self).states@[s].fail,
-            // Aho-Corasick (standard fail links): the output chain of a state lists the registered suffixes of its path, longest first
-            ac_fail(*old(self)) ==> ac_fail(*final(self)) && ac_outs(*final(self)),
+//@includeblock pass_heads.inc build_outputs
     { unimplemented!() }
 }
 
-// the trie built by `add` is the tree the double-array stage expects
-proof fn lemma_trie_gives_tree<V>(n: NfaBuilder<char, V>)
-    requires trie_ok(n), reach_ok(n), n.states@.len() <= u32::MAX as nat + 1,
-        forall|s: int| 0 <= s < n.states@.len() ==> (#[trigger] n.states@[s]).fail < n.states@.len(),
-    ensures nfa_tree(n),
-{
-    let len = n.states@.len();
-    assert forall|s: int| nfa_edges(n, s) == t_edges(n, s) by { }
-    assert forall|c: char| !nfa_edges(n, 1).contains_key(c) by { assert(!t_edges(n, 1).contains_key(c)); }
-    assert forall|s: int, c: char| 0 <= s < len && #[trigger] nfa_edges(n, s).contains_key(c) implies 2 <= nfa_edges(n, s)[c] < len && s < nfa_edges(n, s)[c] by {
-        assert(t_edges(n, s).contains_key(c));
-    }
-    assert forall|t: int| 2 <= t < len implies nfa_parent_ok(n, t, #[trigger] nfa_parent(n, t)) by {
-        reveal(reach_ok);
-        assert(has_reach(n, t));
-        let (q, k) = choose|q: Seq<char>, k: int| reach_wit(n, t, q, k);
-        let p = q.take(k);
-        lemma_walk_range(n, p);
-        let s = walk(n, p.drop_last()).unwrap();
-        lemma_walk_range(n, p.drop_last());
-        assert(t_edges(n, s).contains_key(p.last()) && t_edges(n, s)[p.last()] == t);
-        assert(nfa_parent_ok(n, t, (s, p.last())));
-    }
-    assert forall|s: int, c: char| 0 <= s < len && #[trigger] nfa_edges(n, s).contains_key(c) implies nfa_parent(n, nfa_edges(n, s)[c] as int) == (s, c) by {
-        let t = nfa_edges(n, s)[c] as int;
-        assert(t_edges(n, s).contains_key(c));
-        let p = nfa_parent(n, t);
-        assert(nfa_parent_ok(n, t, p));
-        assert(t_edges(n, p.0).contains_key(p.1));
-    }
-}
 
 // walks and registrations do not look at fail / output_pos
 proof fn lemma_frame_keeps_trie<V>(a: NfaBuilder<char, V>, b: NfaBuilder<char, V>)
